@@ -568,6 +568,37 @@ fn main() {
         });
         let _ = SOp::Bounded(1);
     }
+    // ---- region-local alternative-witness search (vgad::laws) on one input tuple per operation:
+    // every set of <= 3 lookup rows of a region (range checks, byte tables) answered with a
+    // neighbouring row of the actual table, gates repaired through free affine cells, copy
+    // constraints pinning, survivors replayed on the real circuit and judged by the reference
+    {
+        let mut lcases: Vec<(String, Case)> = vec![];
+        let mut seen_ops: std::collections::HashSet<String> = Default::default();
+        for (key, c) in &cases {
+            if !nassign.contains_key(key) {
+                continue;
+            }
+            let has_distinct = distinct_ops.contains(&format!("{:?}", c.op));
+            if is_distinct(c) != has_distinct || !seen_ops.insert(format!("{:?}", c.op)) {
+                continue;
+            }
+            lcases.push((format!("{key}#laws"), c.clone()));
+        }
+        if !tier.is_thorough() {
+            // the quick tier has no room for it (see the group timings in the evidence)
+            cx.note(format!("laws: {} operations would be explored; thorough tier only", lcases.len()));
+            lcases.clear();
+        }
+        let cfg = vgad::laws::Cfg { max_combinations: 200_000, max_real_runs: 4, ..Default::default() };
+        let max_regions = 48usize;
+        cx.run_cases("laws", &lcases, |c| {
+            let mut out = CaseOut::batch();
+            vgad::laws::explore_all(c, kof(c).unwrap(), &cfg, max_regions, &mut out);
+            out
+        });
+    }
+
     // ---- the 1-deviation sweep over the registry is the longest group and runs last; its cases
     // are ordered chunk-major (chunk 0 of every operation, then chunk 1, ...), so that a wall cap
     // cuts every operation at the same depth instead of dropping whole operations
